@@ -211,13 +211,17 @@ func runOPTAB(c *Ctx, r *Result, rule string) int {
 				if !ok {
 					break
 				}
-				cnt := 0
+				distinct := map[int64]bool{}
 				for i := range phi.Edges {
-					if _, ok := caseConstsOf(caseEntry(b.Preds[i], isTag), isTag); ok {
-						cnt++
+					if ks, ok := caseConstsOf(caseEntry(b.Preds[i], isTag), isTag); ok {
+						for _, k := range ks {
+							distinct[k] = true
+						}
 					}
 				}
-				if cnt > bestN {
+				// a collector merges the values of at least two operators (the phi of a
+				// short-circuit inside one case does not)
+				if cnt := len(distinct); cnt >= 2 && cnt > bestN {
 					best, bestN = phi, cnt
 				}
 			}
@@ -259,13 +263,15 @@ func runOPTAB(c *Ctx, r *Result, rule string) int {
 						if !ok {
 							break
 						}
-						cnt := 0
+						distinct := map[int64]bool{}
 						for i := range phi.Edges {
-							if _, ok := caseConstsOf(caseEntry(b.Preds[i], calleeTag), calleeTag); ok {
-								cnt++
+							if ks, ok := caseConstsOf(caseEntry(b.Preds[i], calleeTag), calleeTag); ok {
+								for _, k := range ks {
+									distinct[k] = true
+								}
 							}
 						}
-						if cnt > bestN {
+						if cnt := len(distinct); cnt >= 2 && cnt > bestN {
 							best, bestN = phi, cnt
 							opParamRoles = roles
 							isTag = calleeTag
@@ -296,7 +302,7 @@ func runOPTAB(c *Ctx, r *Result, rule string) int {
 					}
 					if _, ok := caseConstsOf(caseEntry(b, tagOf), tagOf); ok {
 						n++
-						out = append(out, caseVal{ret.Results[0], b})
+						out = append(out, caseVal{unboxedResult(ret.Results[0]), b})
 					}
 				}
 				if n >= 2 {
@@ -608,4 +614,14 @@ func derivesFromParam(v ssa.Value, p *ssa.Parameter, depth int) bool {
 		}
 	}
 	return false
+}
+
+// unboxedResult: reflect.ValueOf(x) -> x (a case that returns its boxed value directly).
+func unboxedResult(v ssa.Value) ssa.Value {
+	if call, ok := v.(*ssa.Call); ok && staticName(call) == "reflect.ValueOf" {
+		if mi, ok := call.Call.Args[0].(*ssa.MakeInterface); ok {
+			return mi.X
+		}
+	}
+	return v
 }
